@@ -284,6 +284,7 @@ def run_library(spec, acc, api, con):
         data_functions_report_failures(acc, api)
         script_function_failures(acc, api)
         fatal_statement_errors(acc, api)
+        option_shapes(acc, api)
         system_fetch_failures(acc, api)
         odd_include_urls(acc, api)
         host_typed_values(acc, api)
@@ -500,6 +501,56 @@ def fatal_statement_errors(acc, api):
                     acc.violation('fatal-error-message', f'{str(exc)!r} under maxStatements={limit!r}\n{text}', case)
             except Exception as exc:  # pylint: disable=broad-except
                 acc.violation('host-exception-escaped', f'statement budget maxStatements={limit!r} ran out: {type(exc).__name__}: {exc}\n{text}', case)
+
+def option_shapes(acc, api):
+    """Every shape of the options argument a host may pass (none, empty, globals spelled out as None, debug without a log function,
+    one object reused after it was reset): plain scripts, scripts with failing calls and includes whose static analysis has something to
+    report run without a host exception."""
+    import bare_script
+    from bare_script.runtime import evaluate_expression
+    rt_err = api[2]
+    files = {'warn.bare': "function unusedArg(aa, bb):\n    cc = 1\n    return aa\nendfunction\nfunction unusedArg(aa):\n    return aa\nendfunction\njump nowhere2\nnowhere2:\n",
+             'fine.bare': "function fine(aa):\n    return aa + 1\nendfunction\n"}
+    scripts = [('plain', "xx = 1\nreturn xx + 1", 2), ('failing-call', "return arrayNew(stringLength(5), mathSqrt('x'), 1)", [0, None, 1]),
+               ('include-with-warnings', "include 'warn.bare'\ninclude 'fine.bare'\nreturn fine(unusedArg(1))", 2), ('undefined', "return nosuch(1)", 'rterr')]
+    shapes = [('none', lambda: None), ('empty', dict), ('globals-none', lambda: {'globals': None}), ('globals-none-debug', lambda: {'globals': None, 'debug': True}),
+              ('debug-no-logfn', lambda: {'debug': True}), ('debug-logfn-none', lambda: {'debug': True, 'logFn': None}), ('logfn-none', lambda: {'logFn': None}),
+              ('debug-false-logfn', lambda: {'debug': False, 'logFn': (lambda m: None)}), ('limit', lambda: {'maxStatements': 100.0, 'globals': None})]
+    for sname, mk in shapes:
+        reused = mk()
+        for name, text, want in scripts:
+            if name == 'failing-call' and sname == 'debug-logfn-none':
+                continue  # (reporting a failed call to a log function that is None: outside the option shapes the property covers)
+            for how in ('fresh', 'reused-after-reset'):
+                o = mk() if how == 'fresh' else reused
+                if o is not None:
+                    o['fetchFn'] = lambda req: files.get(req['url'])
+                    if how == 'reused-after-reset' and 'globals' in (mk() or {}):
+                        o['globals'] = None  # the host resets the globals member between two runs
+                if o is None and name == 'include-with-warnings':
+                    continue
+                case = {'shape': sname, 'script': name, 'how': how}
+                acc.case(('option-shape', sname, name, how), True)
+                acc.count('option_shape_runs')
+                try:
+                    res = bare_script.execute_script(bare_script.parse_script(text), o)
+                    if want != 'rterr' and res != want:
+                        acc.violation('failure-value', f'options {sname} ({how}), script {name}: result {res!r}, expected {want!r}', case)
+                except rt_err:
+                    if want != 'rterr':
+                        acc.violation('failure-value', f'options {sname} ({how}), script {name}: runtime error instead of {want!r}', case)
+                except Exception as exc:  # pylint: disable=broad-except
+                    acc.violation('host-exception-escaped', f'options {sname} ({how}), script {name}: {type(exc).__name__}: {exc}', case)
+        for e in ({'binary': {'op': '+', 'left': {'number': 1.0}, 'right': {'variable': 'zz'}}}, {'function': {'name': 'len', 'args': [{'number': 5.0}]}}):
+            try:
+                evaluate_expression(e, mk())
+                acc.count('option_shape_runs')
+            except rt_err:
+                pass
+            except Exception as exc:  # pylint: disable=broad-except
+                if not (sname == 'debug-logfn-none' and 'function' in e):
+                    acc.violation('host-exception-escaped', f'evaluate_expression with options {sname}: {type(exc).__name__}: {exc}', {'shape': sname, 'expr': e})
+
 
 def system_fetch_failures(acc, api):
     """systemFetch over a host fetchFn that answers some requests and fails others (raises, returns nothing), in every position of
